@@ -7,7 +7,8 @@
      enc  aescbc <key> <iv> <pt> | enc gcm <key> <nonce> <aad> <pt> | enc chacha <key> <nonce> <aad> <pt>
                                            the library's own primitives under a captured key (to build records a key holder could)
      cc12 | <state> | <typ> <body-hex>     direct call of csChacha20Poly1305IetfDecrypt (the TLS 1.2 suite is not in the default build)
-   <session> = cv=.. sv=.. suite=.. seed=.. msgs=<side>:<hex>,...   (side c|s = who sends; "<side>:@<len>:<b>" = len pattern bytes)
+   <session> = cv=.. sv=.. suite=.. seed=.. [pad=c:<n>,s:<n>] msgs=<side>:<hex>,...   (side c|s = who sends; "<side>:@<len>:<b>" = len pattern
+               bytes; pad = matrixSslSetTls13BlockPadding(side, n) after the handshake)
    <state>   = <fam> <msz> <key> <mackey> <iv> <seq> <maj> <min> <expl> <maxfrag>
    run result: events (D:<hex> application data delivered, A:<lvl>:<desc> alert received, F:<alert> fatal alert sent, P bytes buffered
    waiting for more, E<rc> API error) then seq=<remSeq> ; dead=<0|1> probe=<refused|accepted|none> */
@@ -54,7 +55,7 @@ static int establish(int from, int upto) {
     if (g_have && !strcmp(key, g_key)) return 0;
     g_have = 0; strcpy(g_key, key);
     scfg_t c; memset(&c, 0, sizeof c); c.cca = 1; c.seed = 1;
-    const char *msgs = NULL;
+    const char *msgs = NULL; long padc = 0, pads = 0;
     for (int i = from; i < upto; i++) {
         char *t = strdup(g_tok[i]); char *eq = strchr(t, '='); if (!eq) { free(t); continue; } *eq = 0; char *v = eq + 1;
         if (!strcmp(t, "cv")) { c.ncver = 0; for (char *p = v; *p && c.ncver < 4;) { c.cver[c.ncver++] = atoi(p); while (*p && *p != ',') p++; if (*p) p++; } }
@@ -63,11 +64,15 @@ static int establish(int from, int upto) {
         else if (!strcmp(t, "seed")) c.seed = strtoull(v, NULL, 10);
         else if (!strcmp(t, "key")) c.key = !strcmp(v, "ec");
         else if (!strcmp(t, "msgs")) msgs = g_tok[i] + 5;
+        else if (!strcmp(t, "pad")) { for (char *p = v; *p;) { int sd = *p; long n = p[1] == ':' ? atol(p + 2) : 0; if (sd == 'c') padc = n; else if (sd == 's') pads = n; while (*p && *p != ',') p++; if (*p) p++; } }
         free(t);
     }
     int rc = sess_new(&c); if (rc) return rc;
     g_quiet = 1; pump(1);
     if (!matrixSslHandshakeIsComplete(g_c.ssl) || !matrixSslHandshakeIsComplete(g_s.ssl)) return -91;
+    /* pad=c:<n>,s:<n>: RFC 8446 5.4 record padding to a block size, switched on after the handshake (public API) */
+    if (padc > 0 && matrixSslSetTls13BlockPadding(g_c.ssl, (psSizeL_t) padc) < 0) return -95;
+    if (pads > 0 && matrixSslSetTls13BlockPadding(g_s.ssl, (psSizeL_t) pads) < 0) return -95;
     q_init(&g_c2s); q_init(&g_s2c);
     for (int d = 0; d < 2; d++) { for (int i = 0; i < g_nrec[d]; i++) free(g_rec[d][i]); g_nrec[d] = 0; }
     /* application sends, not delivered */
@@ -226,7 +231,7 @@ static void do_cc12(void) {
 
 /* ------------------------------------------------------------------ DTLS 1.2: in-memory pair, every datagram delivered in order
    dcap suite=<hex> seed=<n> msgs=<side>:<hex>,... |          -> read state of both sides + the application datagrams per direction
-   drun suite=.. seed=.. msgs=.. to=<s|c> | <dg-hex>,<dg-hex>,...   -> per datagram: D:<hex> delivered, F:<alert> fatal alert, N nothing,
+   drun suite=.. seed=.. msgs=.. to=<s|c> | <dg-hex>,<dg-hex>,... [| <state>]  -> per datagram: D:<hex> delivered, F:<alert> fatal alert, N nothing,
                                                                       E<rc> error return; then dead=<0|1> */
 static peer_t d_c, d_s; static char d_key[1 << 16]; static int d_have = 0;
 static unsigned char *d_dg[2][MAXR]; static size_t d_dglen[2][MAXR]; static int d_ndg[2];
@@ -321,6 +326,13 @@ static int do_drun(void) {
     int rc = d_establish(1, b1 - 1);
     if (rc) { printf("SETUP-FAIL %d", rc); return 0; }
     peer_t *rcv = to_server ? &d_s : &d_c;
+    int b2 = find_bar(b1 + 1);
+    if (b2 < g_ntok) {        /* optional third field: the receiver's read state the case was built for */
+        char have[4096], want[4096]; size_t o = 0; want[0] = 0;
+        sprint_state(have, sizeof have, rcv->ssl, 1);
+        for (int i = b2 + 1; i < g_ntok; i++) o += (size_t) snprintf(want + o, sizeof want - o, "%s%s", i > b2 + 1 ? " " : "", g_tok[i]);
+        if (strcmp(have, want)) { printf("STATE-MISMATCH have=%s", have); return 0; }
+    }
     fflush(stdout);
     pid_t pid = fork();
     if (pid == 0) {
